@@ -98,8 +98,9 @@ def decode_package(r):
         out["ops"][name] = {"classes": [cls(c) for c in classes], "mix": mix, "unp": unp,
                             "imports": [tuple(p) for p in imports]}
     if module != "none":
-        names, generated, order, classes = module[1]
+        names, generated, order, classes, imports = module[1]
         out["module"] = {"names": names, "generated": generated, "order": order,
+                         "imports": [tuple(p) for p in imports],
                          "classes": {n: [cls(c) for c in cs] for n, cs in classes}}
     return out
 
